@@ -497,7 +497,8 @@ func (f *Frame) evalBuiltin(st *State, call *ast.CallExpr, name string) []Val {
 			}
 			r := f.havoc(st, "app", t)
 			st.assume(fmt.Sprintf("(= (%s.len %s) (+ (%s.len %s) %s))", so, r.T, so, base.T, olen))
-			st.assume(fmt.Sprintf("(= (%s.off %s) 0)", so, r.T))
+			// appending nothing to the nil slice gives the nil slice back (append([]byte(nil), empty...) == nil)
+			st.assume(fmt.Sprintf("(= (%s.off %s) (ite (and (< (%s.off %s) 0) (= %s 0)) (- 1) 0))", so, r.T, so, base.T, olen))
 			st.assume(fmt.Sprintf("(forall ((i!a Int)) (=> (and (<= 0 i!a) (< i!a (%s.len %s))) (= (select (%s.arr %s) i!a) (select (%s.arr %s) (+ (%s.off %s) i!a)))))", so, base.T, so, r.T, so, base.T, so, base.T))
 			st.assume(fmt.Sprintf("(forall ((i!a Int)) (=> (and (<= 0 i!a) (< i!a %s)) (= (select (%s.arr %s) (+ (%s.len %s) i!a)) %s)))", olen, so, r.T, so, base.T, oelem("i!a")))
 			return []Val{r}
